@@ -19,6 +19,7 @@ pub struct Notes(pub Vec<&'static str>, pub Vec<&'static str>);
 pub const NON_UTF8: &str = "bytes-that-are-not-utf8-read-as-string";
 /// Likewise for a plain string / bytes value that is not the text / the 16 bytes of a UUID.
 pub const NOT_A_UUID: &str = "plain-value-that-is-not-a-uuid-read-as-uuid";
+pub const NOT_A_BIG_DECIMAL: &str = "plain-bytes-read-as-big-decimal";
 
 impl Notes {
     pub fn new() -> Notes {
@@ -209,6 +210,7 @@ pub fn resolve(mut v: Value, s: &S, env: &Env, notes: &mut Notes) -> Result<Valu
             Value::Bytes(b) => Ok(Value::Bytes(b)),
             Value::String(x) => Ok(Value::Bytes(x.into_bytes())),
             Value::Array(items) => {
+                notes.add("array-of-small-ints-accepted-by-bytes-reader");
                 let mut out = vec![];
                 for it in items {
                     match resolve(it, &S::Int, env, notes)? {
@@ -248,7 +250,12 @@ pub fn resolve(mut v: Value, s: &S, env: &Env, notes: &mut Notes) -> Result<Valu
                 Ok(Value::Fixed(x.len(), x.into_bytes()))
             }
             Value::Bytes(b) => {
-                if b.len() == *size { Ok(Value::Fixed(*size, b)) } else { Err(()) }
+                if b.len() == *size {
+                    notes.add("bytes-of-the-right-length-accepted-by-fixed-reader");
+                    Ok(Value::Fixed(*size, b))
+                } else {
+                    Err(())
+                }
             }
             other => {
                 logical_note(&other, notes);
@@ -320,9 +327,34 @@ pub fn resolve(mut v: Value, s: &S, env: &Env, notes: &mut Notes) -> Result<Valu
                 }
                 match v {
                     // (repaired in the library by c947c76: no comparison of byte length and precision)
-                    Value::Decimal(d) => Ok(Value::Decimal(d)),
-                    Value::Fixed(_, b) | Value::Bytes(b) => Ok(Value::Decimal(Decimal::from(b))),
+                    Value::Decimal(d) => {
+                        if let S::Fixed { size, .. } = &**base {
+                            // the value keeps the width it was written with; the reader's fixed size is not compared
+                            if <Vec<u8>>::try_from(&d).map(|b| b.len()).ok() != Some(*size) {
+                                notes.add("decimal-on-fixed-size-not-compared");
+                            }
+                        }
+                        Ok(Value::Decimal(d))
+                    }
+                    Value::Fixed(_, b) => {
+                        match &**base {
+                            S::Fixed { size, .. } if *size == b.len() => {}
+                            _ => notes.add("fixed-or-bytes-accepted-by-decimal-reader-whatever-its-underlying-type"),
+                        }
+                        Ok(Value::Decimal(Decimal::from(b)))
+                    }
+                    Value::Bytes(b) => {
+                        if !matches!(**base, S::Bytes) {
+                            notes.add("fixed-or-bytes-accepted-by-decimal-reader-whatever-its-underlying-type");
+                        }
+                        Ok(Value::Decimal(Decimal::from(b)))
+                    }
                     Value::String(x) => {
+                        // a string is taken for a JSON default (code point = byte) even when it was written as
+                        // a string, whose bytes are its UTF-8 encoding
+                        if !x.is_ascii() {
+                            notes.add("string-read-as-decimal-by-code-points");
+                        }
                         let mut b = vec![];
                         for c in x.chars() {
                             if c as u32 > 0xff {
@@ -340,7 +372,19 @@ pub fn resolve(mut v: Value, s: &S, env: &Env, notes: &mut Notes) -> Result<Valu
             }
             Lt::BigDecimal => match v {
                 Value::BigDecimal(b) => Ok(Value::BigDecimal(b)),
-                _ => Err(()), // bytes -> big-decimal needs the library's parser; outside the model
+                Value::Bytes(_) => {
+                    // the payload format of big-decimal is the library's own; plain bytes are not one in
+                    // general (C08 gives no verdict on these pairs, C09 reads this note)
+                    notes.fatal(NOT_A_BIG_DECIMAL);
+                    Err(())
+                }
+                other => {
+                    if matches!(other, Value::String(_) | Value::Fixed(..)) {
+                        notes.fatal(NOT_A_BIG_DECIMAL);
+                    }
+                    logical_note(&other, notes);
+                    Err(())
+                }
             },
             Lt::Duration => match v {
                 Value::Duration(d) => Ok(Value::Duration(d)),
